@@ -89,4 +89,21 @@ PROPS = {
             "theorems cover values without Float64 (recursively); with floats the ordering laws are refuted (C19_F1_*_refuted) and recorded as known finding C19-F1; equality/hash laws on floats are checked by the oracle only",
         ],
     ),
+    "C10": dict(
+        coq_targets=["Props/C10.vo"],
+        harness=[dict(pkg="h_codec", bin="c10", cases={"quick": 450, "thorough": 6000},
+                      checkers=["corr", "oracle"], timeout=2400)],
+        allowed_axioms=[],
+        trusted_base=[
+            "bytes::BytesMut as a byte list; tokio_util FramedRead modelled as: append chunk, decode until Ok(None)",
+            "usize = 64 bits; the harness is built with overflow checks (debug semantics for arithmetic)",
+            "UTF-8 validation of names modelled as ASCII (the harness generates ASCII names and single bytes >= 0x80 as the invalid case)",
+            "no hook needed (public encoders/decoders of swimos_agent_protocol, swimos_messages, swimos_utilities::encoding)",
+        ],
+        assumptions=[
+            "theorems: generic streaming theorem; frame specs + any-chunking for WithLengthBytes, RawMapOperation, RawMapMessage, lane request/response over the three inner layers; no-panic for all modelled decoders except the command decoder. Store, downlink-operation, command and routed-message codecs: correspondence + oracle only",
+            "typed (Recon-bodied) codecs are outside the model (their bodies are C09's subject)",
+            "decode_eof is not exercised",
+        ],
+    ),
 }
